@@ -84,8 +84,8 @@ def observe(fn):
 
 
 # ---- OAuth 2 endpoints ----------------------------------------------------------------------------
-def world2():
-    w = H.World()
+def world2(framework=None):
+    w = H.World(framework=framework)
     w.store.jwt = dict(w.store.jwt)
     # a live code, token and device code to aim valid-looking requests at
     w.step({"op": "authorize", "client": "c1", "redirect": "https://c1/cb", "scope": "a b", "challenge": H.s256(H.V43), "method": "S256", "user": 1, "approve": True})
@@ -126,11 +126,20 @@ def call_oauth2(w, name, form, headers, via="form", method="POST"):
     else:
         form_ = {k: v for k, v in form.items() if v is not None}
     req = Req(method if kind != "authorization" or via == "form" else "GET", uri, form_, headers)
-    if kind == "authorization":
-        return observe(lambda: w.srv.create_authorization_response(req, grant_user=w.store.users[1]))
-    if kind == "token":
-        return observe(lambda: w.srv.create_token_response(req))
-    return observe(lambda: w.srv.create_endpoint_response(kind, req))
+    def call():
+        try:
+            if kind == "authorization":
+                return ms.fw_call(w.srv, req, "create_authorization_response", grant_user=w.store.users[1])
+            if kind == "token":
+                return ms.fw_call(w.srv, req, "create_token_response")
+            return ms.fw_call(w.srv, req, "create_endpoint_response", kind)
+        except Exception as e:
+            tb = "".join(traceback.format_tb(e.__traceback__))
+            if getattr(w.srv, "framework", None) and "/authlib/" not in tb.split("fw_call")[-1]:
+                # the framework's own request machinery refused the value before the library saw it
+                return type("T", (), {"status": 400, "body": {"error": "invalid_request"}, "headers": {}})()
+            raise
+    return observe(call)
 
 
 def world2j():
@@ -533,6 +542,15 @@ def cases(rng, tier):
             out.append({"t": "oauth2", "ep": name, "form": {x: y for x, y in base.items() if x != k}, "headers": dict(hdr), "via": "form", "mut": "-" + k})
         for a in HOSTILE_AUTH:
             out.append({"t": "oauth2", "ep": name, "form": dict(base), "headers": {"Authorization": a}, "via": "form", "mut": "Authorization"})
+        # the same endpoint behind the Flask and Django integrations (their request wrappers see the hostile values first)
+        for fw in ("flask", "django"):
+            out.append({"t": "oauth2", "ep": name, "form": dict(base), "headers": dict(hdr), "via": "form", "fw": fw})
+            for k in base:
+                for v in HOSTILE:
+                    out.append({"t": "oauth2", "ep": name, "form": dict(base, **{k: v}), "headers": dict(hdr), "via": "form", "mut": k, "fw": fw})
+                out.append({"t": "oauth2", "ep": name, "form": {x: y for x, y in base.items() if x != k}, "headers": dict(hdr), "via": "form", "mut": "-" + k, "fw": fw})
+            for a in HOSTILE_AUTH:
+                out.append({"t": "oauth2", "ep": name, "form": dict(base), "headers": {"Authorization": a}, "via": "form", "mut": "Authorization", "fw": fw})
         for via in ("query", "rawquery"):
             for k in base:
                 for v in HOSTILE:
@@ -688,7 +706,7 @@ def impl(c):
     if t == "errobj":
         return run_errobj(c)
     if t == "oauth2":
-        return call_oauth2(world2(), c["ep"], copy.deepcopy(c["form"]), dict(c["headers"]), c.get("via", "form"))
+        return call_oauth2(world2(c.get("fw")), c["ep"], copy.deepcopy(c["form"]), dict(c["headers"]), c.get("via", "form"))
     if t == "resource2":
         return call_resource(world2(), c["auth"], c["required"])
     if t == "flask_rp":
@@ -844,7 +862,7 @@ def jose_documented(c, out):
 def classify(c, out):
     if c["t"] == "errobj":
         return "errobj/" + ("ValueError" if "raised" in out else "response")
-    return f"{c['t']}/{c.get('ep') or c.get('api') or ''}/{out['kind']}" + (f"/{out.get('status')}" if out["kind"] == "response" else "")
+    return f"{c['t']}{'@' + c['fw'] if c.get('fw') else ''}/{c.get('ep') or c.get('api') or ''}/{out['kind']}" + (f"/{out.get('status')}" if out["kind"] == "response" else "")
 
 
 def nontrivial(c, out):
